@@ -143,3 +143,12 @@ if __name__ == '__main__':
     here = os.path.dirname(os.path.dirname(os.path.abspath(__file__)))
     generate(repo, os.path.join(here, 'coq', 'gen', 'Gen_sdof_coeffs.v'))
     print('Gen_sdof_coeffs.v up to date')
+
+
+def regenerate(repo=None, out=None):
+    """uniform entry point for translator/regen.py: returns True iff the file was rewritten"""
+    repo = repo or os.environ.get('EQSIG_REPO', '/repo')
+    here = os.path.dirname(os.path.dirname(os.path.abspath(__file__)))
+    out = out or os.path.join(here, 'coq', 'gen', 'Gen_sdof_coeffs.v')
+    old = open(out).read() if os.path.exists(out) else None
+    return generate(repo, out) != old
